@@ -16,7 +16,7 @@
       [validate_connections fixed m]  the issues of the Validator's interface and equivalence-structure checks;
       [link_model m], [has_unlinked m], [clean_model m]  Model::linkUnits, hasUnlinkedUnits, clean. *)
 From Coq Require Import String List Bool.
-From LC Require Import IfaceDefs IfaceSpec IfaceProofs.
+From LC Require Import IfaceDefs IfaceSpec IfaceProofs IfaceOwnDefs IfaceOwnProofs.
 From LCGen Require Import IfaceTable.
 Import ListNotations.
 Local Open Scope string_scope.
@@ -259,6 +259,54 @@ Example C19_link_nonvacuous :
   has_unlinked (fst (link_model m_link)) = false.
 Proof. exact IfaceProofs.P_link_nonvacuous. Qed.
 Print Assumptions C19_link_nonvacuous.
+
+(* ---- histories of the units / ownership API (IfaceOwnDefs.v): where [units_owned] comes from *)
+
+(** Every call of Model::addUnits / removeUnits (index, name, object, equal-but-distinct object) / removeAllUnits /
+    takeUnits / replaceUnits (three overloads), and the death of a model, keeps the invariant "no repetition in
+    a units list, and every listed object answers that model as parent" — unless the call re-adds a units
+    object to the model that already lists it. *)
+Theorem C19_ownership_step : forall s o, Inv s -> readds s o = false -> Inv (fst (step s o)).
+Proof. exact IfaceOwnProofs.inv_step. Qed.
+Print Assumptions C19_ownership_step.
+
+(** Every state reached from freshly created objects satisfies the hypothesis of C19_link_true_post, for
+    every model of the state and whatever component tree it carries. *)
+Theorem C19_reach_owned : forall s0 os m comps ext,
+  fresh s0 -> any_readd s0 os = false -> units_owned (model_view (fst (run_ops s0 os)) m comps ext).
+Proof. exact IfaceOwnProofs.reach_owned. Qed.
+Print Assumptions C19_reach_owned.
+
+(** ... so the post-condition of linkUnits holds after every such history, not only on fresh models. *)
+Theorem C19_link_true_post_histories : forall s0 os m comps ext,
+  fresh s0 -> any_readd s0 os = false ->
+  let M := model_view (fst (run_ops s0 os)) m comps ext in
+  snd (link_model M) = true ->
+  has_unlinked (fst (link_model M)) = false /\
+  forall o t u, In o (model_occs M) -> v_units (o_v o) = Some t -> uget (m_heap M) t = Some u ->
+    is_standard_unit u = false ->
+    exists t' u', v_units (o_v (link_occ M o)) = Some t' /\ uget (m_heap M) t' = Some u' /\
+      u_owner u' = Some (m_tag M) /\ u_name u' = u_name u /\ (t' = t \/ FirstNamed M (u_name u) t').
+Proof. exact IfaceOwnProofs.link_true_post_histories. Qed.
+Print Assumptions C19_link_true_post_histories.
+
+(** The exclusion is needed (known finding C19-readded-units-lose-parent): addUnits(u) twice, removeUnits(0)
+    once — all three calls succeed, u is still listed, has no parent; linkUnits() true, hasUnlinkedUnits() true. *)
+Theorem C19_reach_owned_refuted :
+  fresh s_fresh /\ any_readd s_fresh h_readd = true /\
+  snd (run_ops s_fresh h_readd) = [RBool true; RBool true; RBool true] /\
+  let M := model_view (fst (run_ops s_fresh h_readd)) 0 tree_holding [] in
+  m_units M = [10] /\ ~ units_owned M /\ snd (link_model M) = true /\ has_unlinked (fst (link_model M)) = true.
+Proof. exact IfaceOwnProofs.reach_owned_refuted. Qed.
+Print Assumptions C19_reach_owned_refuted.
+
+Example C19_histories_nonvacuous :
+  fresh s_two /\ any_readd s_two h_moves = false /\
+  snd (run_ops s_two h_moves) = [RBool true; RBool true; RBool true; RBool true; RBool true; RBool true; RVoid] /\
+  us_models (fst (run_ops s_two h_moves)) = [(0, [11; 10])] /\
+  map u_owner (visible_heap (fst (run_ops s_two h_moves))) = [Some 0; Some 0; None].
+Proof. exact IfaceOwnProofs.histories_nonvacuous. Qed.
+Print Assumptions C19_histories_nonvacuous.
 
 (* ================================================================================================ *)
 (** * clean *)
